@@ -968,3 +968,40 @@ Proof.
     rewrite <- E1. unfold s1. apply cow_frame. simpl. intros [E|[]]. now apply Hne.
   - rewrite E1. apply cow_frame. simpl. intros [E|[]]. now apply Hne.
 Qed.
+
+(* ---- whole histories: the abstraction of the concrete run IS the abstract run --------------- *)
+
+Fixpoint vrun (ops : list op) (e : venv) : venv :=
+  match ops with [] => e | o :: r => vrun r (snd (vstep o e)) end.
+
+Lemma vstep_ext o e1 e2 : (forall x, e1 x = e2 x) ->
+  fst (vstep o e1) = fst (vstep o e2) /\ forall z, snd (vstep o e1) z = snd (vstep o e2) z.
+Proof.
+  intro H. unfold vstep.
+  assert (Hwf : vwf_op e1 o = vwf_op e2 o) by (destruct o; simpl; unfold vexists; now rewrite ?H).
+  rewrite Hwf. destruct (vwf_op e2 o); [|simpl; auto].
+  destruct o; unfold vexec, vview, vinplace; rewrite ?H;
+    repeat match goal with
+           | |- context [match ?t with _ => _ end] => destruct t
+           end; simpl; (split; [reflexivity|]); intro z0; unfold vupd;
+    repeat match goal with
+           | |- context [?a =? ?b] => destruct (a =? b)
+           end; auto.
+Qed.
+
+Lemma vrun_ext ops : forall e1 e2, (forall x, e1 x = e2 x) -> forall x, vrun ops e1 x = vrun ops e2 x.
+Proof.
+  induction ops as [| o r IH]; intros e1 e2 H x; [apply H|].
+  simpl. apply IH. exact (proj2 (vstep_ext o e1 e2 H)).
+Qed.
+
+Lemma run_refines ops : forall s e, Inv [] s -> (forall x, abs s x = e x) ->
+  forall x, abs (run ops s) x = vrun ops e x.
+Proof.
+  induction ops as [| o r IH]; intros s e HI H x; [apply H|].
+  rewrite run_cons. simpl. destruct (step_refines s o HI) as (HI' & _ & Ha).
+  apply IH; [exact HI'|]. intro z. rewrite Ha. exact (proj2 (vstep_ext o (abs s) e H) z).
+Qed.
+
+Theorem history_refines ops x : abs (run ops empty_store) x = vrun ops (fun _ => ANone) x.
+Proof. apply run_refines; [apply Inv_empty|]. intro z. unfold abs, var. simpl. now destruct z. Qed.
